@@ -290,6 +290,11 @@ func extractFile(c context.Context, ls *ipld.LinkSystem, n ipld.Node, outputName
 	if outputName == "" {
 		f = os.Stdout
 	} else {
+		// Never write through a symbolic link: an earlier entry of the same archive (or a previous
+		// extraction) may have planted one at this name pointing outside the output directory.
+		if fi, lerr := os.Lstat(outputName); lerr == nil && fi.Mode()&os.ModeSymlink != 0 {
+			return fmt.Errorf("refusing to write file through existing symbolic link: %s", outputName)
+		}
 		f, err = os.Create(outputName)
 		if err != nil {
 			return err
